@@ -2,7 +2,7 @@
 
 PROPS = {
     "C07": dict(
-        units=["thresholds"],
+        units=["thresholds", "leader"],
         kani=["thresholds"],
         level="proof",
         level_text="Deductive proof (Verus) over the real text of max_faulty_weight / quorum_threshold / subquorum_threshold, "
